@@ -50,7 +50,7 @@ SIM_NAMES = {"SymbolicSimulator", "PartialNativeSim", "DefaultPredicateSim"}
 
 
 def classes(tier):
-    return ["kinds_exh", "random_long", "superposition", "non_measured_direct", "exact", "bind"]
+    return ["kinds_exh", "random_long", "superposition", "non_measured_direct", "exact", "bind", "sweep"]
 
 
 # ----------------------------------------------------------------------------- reading library objects
@@ -404,6 +404,13 @@ def _pview(circuit):
 
 def _pre_bind(mon, call):
     tasks = call.args[0] if call.args else call.kwargs.get("estimation_tasks")
+    maps = call.args[1] if len(call.args) > 1 else call.kwargs.get("symbols_maps")
+    try:
+        # the maps as they are handed in (a mapping that answers for missing keys - defaultdict, Counter, a dict
+        # subclass with __missing__ - lists only what it LISTS: plain copies of the items)
+        mon.c15_maps_before = [dict(m.items()) for m in maps] if all(isinstance(m, dict) for m in maps) else None
+    except Exception:
+        mon.c15_maps_before = None
     try:
         return [(_pview(t.circuit), t.operator, t.number_of_shots) for t in tasks]
     except Exception:
@@ -445,6 +452,16 @@ def _post_bind(mon, call):
     if len(res) != len(tasks):
         mon.violation("result-count", f"bind: {len(res)} tasks for {len(tasks)} tasks")
         return
+    listed = getattr(mon, "c15_maps_before", None)
+    if listed is not None and len(listed) == len(maps):
+        for i, (m, m0) in enumerate(zip(maps, listed)):
+            if dict(m.items()) != m0:
+                mon.violation("bind-mutated-map", f"bind: map #{i} ({type(m).__name__}) listed {m0!r} before the call and lists {dict(m.items())!r} after it")
+                return
+        if any(type(m) is not dict for m in maps):
+            mon.note("bind:map-kinds-other-than-dict")
+        # what a map binds is what it listed when it was handed in
+        maps = [m if type(m) is dict else m0 for m, m0 in zip(maps, listed)]
     syms = sorted({s for (n, view), _o, _s in pre for _nm, _q, ps in view for p in ps for s in sympy.sympify(p).free_symbols}, key=str)
     probes = {s: sympy.Float(0.37 + 0.113 * k) for k, s in enumerate(syms)}
     for i, (t_in, t_out, m, (pv, op0, shots0)) in enumerate(zip(tasks, res, maps, pre)):
@@ -652,6 +669,43 @@ def run_case(ctx):
             pass
         return
 
+    if cls == "sweep":
+        # an optimisation loop: ONE runner object lives through many steps; every step builds its tasks afresh (the
+        # circuits of a step die before the next step is built, so their addresses come back) and all circuits have
+        # the same shape - same register, same number of operations - and differ only in WHICH gates they hold.
+        # Anything the runner remembers per circuit identity, size or position meets a different circuit here.
+        from orquestra.quantum.runners.symbolic_simulator import SymbolicSimulator
+
+        width = rng.randint(2, 4)
+        k = rng.randint(1, 3)
+        sim = SymbolicSimulator(seed=rng.randint(0, 10**6))
+        runner = G.RecordingRunner(sim, rng.choice([0, 0, 3])) if rng.random() < 0.4 else sim
+        mode = rng.choice(["exact", "averaging", "both", "bind-then-exact"])
+        steps = rng.randint(6, 14)
+        ops = [G.rand_ising_op(rng, width, i, scale) for i in range(k)]
+        ctx.describe(f"sweep {mode} width={width} tasks={k} steps={steps} " + " ".join(G.op_str(o) for o in ops), True)
+        ctx.mon.note("sweep:" + mode)
+        th = sympy.Symbol("theta")
+        for step in range(steps):
+            specs = []
+            for i in range(k):
+                w = max(width, G.op_width(ops[i]))
+                bits = [rng.randint(0, 1) for _ in range(w)]
+                circ = {"n": w, "ops": [("X" if b else "I", (q,), ()) for q, b in enumerate(bits)]}
+                specs.append({"kind": "measured", "op": ops[i], "circ": circ, "shots": rng.choice([1, 3, 20])})
+            tasks = G.build_tasks(specs)
+            try:
+                if mode == "bind-then-exact":
+                    tasks = EST.evaluate_estimation_circuits(tasks, [{th: 0.1 * step} for _ in tasks])
+                if mode in ("exact", "both", "bind-then-exact"):
+                    EST.calculate_exact_expectation_values(sim, tasks)
+                if mode in ("averaging", "both"):
+                    EST.estimate_expectation_values_by_averaging(runner, tasks)
+            except Exception:
+                pass  # recorded by the hooks
+            del tasks, specs
+        return
+
     if cls == "bind":
         names = rng.sample(["theta_0", "theta_1", "theta_10", "phi", "lambda_", "x", "beta"], rng.randint(1, 4))
         symbols = {nm: sympy.Symbol(nm) for nm in names}
@@ -700,6 +754,19 @@ def run_case(ctx):
         symbols["unused_sym"] = sympy.Symbol("unused_sym")
         tasks = G.build_tasks(specs, symbols)
         lib_maps = [{symbols[k]: v for k, v in m.items()} for m in maps]
+        if ctx.index % 3 == 1:
+            # maps of other dict kinds, among them kinds that ANSWER for keys they do not list (a defaultdict even
+            # starts listing them): a map binds the symbols it lists, the others stay free
+            import collections
+
+            class ZeroForMissing(dict):
+                def __missing__(self, key):
+                    return 0.0
+
+            kinds_ = [lambda d: collections.defaultdict(float, d), lambda d: collections.Counter(d), ZeroForMissing,
+                      lambda d: collections.OrderedDict(d), lambda d: collections.defaultdict(lambda: 1.0, d)]
+            lib_maps = [rng.choice(kinds_)(d) if rng.random() < 0.7 else d for d in lib_maps]
+            ctx.mon.note("bind-case:map-kinds-other-than-dict")
         lib_maps = [lib_maps[j] for j in msrc]
         try:
             EST.evaluate_estimation_circuits(tasks, lib_maps)
